@@ -17,7 +17,7 @@ PROP = "C16"
 MANIFEST = dict(
     level="model_checking", design_ref="DESIGN.md 8 (C16), 7 (SampleRate)",
     technique="TLA+ model of rate propagation (TLC, all orders of build/enqueue/change/callback) + TLC orders replayed on the real library with the add-track call split at a cfg(kira_verif) yield point + TLC trace validation against P_C16; one known finding matched by signature",
-    text="TLC explores every order of building tracks (rate load and enqueue as separate steps), changing the device rate and running callbacks, and checks that every effect processes with the rate in force (D12, a track not yet in the arena during a change, is the one named exception). The generated orders run on real top-level, nested, send and spatial tracks with rate-recording probe effects. Sound duration, clock speed, delay time and the rise time of a low-pass filter (a cutoff in hertz) are measured in device time at several rates and across a mid-stream change and compared with their nominal seconds.",
+    text="TLC explores every order of building tracks (rate load and enqueue as separate steps), changing the device rate and running callbacks, and checks that every effect processes with the rate in force (D12, a track not yet in the arena during a change, is the one named exception). The generated orders run on real top-level, nested, send and spatial tracks with rate-recording probe effects. Sound duration, clock speed, delay time and the rise time of a low-pass filter (a cutoff in hertz) are measured in device time at several rates and across a mid-stream change and compared with their nominal seconds. Also measured in device time: the reverb's first reflection (1116/44100 s) at 22.05-96 kHz and across a change, an echo in flight across a change, sounds whose own rate is 10-24 times the device's, and the histories change-then-add for every kind of track.",
     note="Rates 8-40 Hz keep every duration an exact number of milliseconds; of the DSP effects' frequencies in hertz only the filter cutoff is measured (step response). Tween durations scale through the same dt as clocks and are not measured separately.")
 
 
